@@ -71,6 +71,7 @@ def check_case(ctx, cs):
         return
     variants = [o["res"]] + ([o["res2"]] if op == "rotate" else [])
     tiny = op == "scale" and abs(float(fr(o["f"]))) < 1e-3
+    tol_def = 1e-12 if (op == "translate" and 0 < max(abs(float(fr(x))) for x in o["vec"]) < 1e-6) else 1e-9
     fails = []
     for var in variants:
         bad = None
@@ -82,7 +83,7 @@ def check_case(ctx, cs):
                 pg["P"] = [[x / fct for x in q[:-1]] + [q[-1]] if pg["rat"] else [x / fct for x in q] for q in pg["P"]]
                 bad = same_def(pg, orig, 1e-9)
             else:
-                bad = same_def(project(g), e, 1e-9)
+                bad = same_def(project(g), e, tol_def)
             if bad:
                 break
         fails.append(bad)
